@@ -85,11 +85,85 @@ fn any_same(k: u8, p: u64) -> FinState {
     }
 }
 
+// C12: DataSender::stop_sending (what a stream reset does to the data sender) from EVERY sender
+// state, with a range recorded as lost and one as pending: unless everything including the FIN had
+// already been acknowledged (Finished), the sender ends up Cancelled with nothing left to
+// (re)transmit - no lost range, no pending range, no buffered data, flow controller told to stop -
+// so no STREAM frame can follow the RESET_STREAM.
+#[derive(Default)]
+struct RecFlow {
+    finished: bool,
+}
+
+impl OutgoingDataFlowController for RecFlow {
+    fn acquire_flow_control_window(&mut self, end_offset: VarInt) -> VarInt {
+        end_offset
+    }
+    fn is_blocked(&self) -> bool {
+        false
+    }
+    fn clear_blocked(&mut self) {}
+    fn finish(&mut self) {
+        self.finished = true;
+    }
+}
+
+#[cfg(kani)]
+static VERIF_LOC: &core::panic::Location<'static> = core::panic::Location::caller();
+#[cfg(kani)]
+struct StubLoc<'a>(core::marker::PhantomData<&'a ()>);
+#[cfg(kani)]
+impl<'a> StubLoc<'a> {
+    fn caller() -> &'static core::panic::Location<'static> {
+        VERIF_LOC
+    }
+}
+
+#[cfg_attr(kani, kani::proof)]
+#[cfg_attr(kani, kani::unwind(10))]
+#[cfg_attr(kani, kani::stub(core::panic::Location::caller, StubLoc::caller))]
+fn verif_data_sender_stop_sending() {
+    use crate::transmission::interest::Provider as _;
+    let mut ds: DataSender<RecFlow, writer::Stream> = DataSender::new(RecFlow::default(), 4096);
+    let k: u8 = kani::any();
+    kani::assume(k < 7);
+    let (fin, _, _) = any_fin();
+    ds.state = match k {
+        0 => State::Sending,
+        1 => State::Finished,
+        2 => State::Cancelled(StreamError::invalid_stream()),
+        _ => State::Finishing(fin),
+    };
+    // stream data [0,10) was sent and declared lost, [10,20) is still unacknowledged
+    let was_finished = ds.state == State::Finished;
+    if !was_finished {
+        ds.lost.insert(VarInt::from_u8(0)..VarInt::from_u8(10)).unwrap();
+        ds.pending.insert(VarInt::from_u8(0)..VarInt::from_u8(20)).unwrap();
+    }
+    let error = StreamError::stream_reset(VarInt::from_u8(7).into());
+    ds.stop_sending(error);
+    if was_finished {
+        assert!(ds.state == State::Finished);
+        kani::cover!(true, "already finished: nothing to cancel");
+    } else {
+        assert!(matches!(ds.state, State::Cancelled(_)));
+        assert!(ds.lost.is_empty());
+        assert!(ds.pending.is_empty());
+        assert!(ds.is_empty());
+        assert!(ds.flow_controller().finished);
+        assert!(!ds.has_transmission_interest());
+        kani::cover!(k >= 3 && matches!(fin, FinState::Acknowledged), "FIN already acknowledged while data was lost");
+        kani::cover!(k == 0, "reset while sending");
+    }
+    core::mem::forget(ds);
+}
+
 // ---- generated by tools/fixup.py: native replay entry ----
 #[cfg(not(kani))]
 #[test]
 fn verif_replay() {
     kani::replay(&[
         ("verif_fin_state_step", verif_fin_state_step),
+        ("verif_data_sender_stop_sending", verif_data_sender_stop_sending),
     ]);
 }
